@@ -379,11 +379,40 @@ def r18_5(repo: Repo) -> RuleResult:
     return rr
 
 
-RULES = [r18_1, r18_2, r18_3, r18_4, r18_5]
+def r18_6(repo: Repo) -> RuleResult:
+    """The cumulative distributions of the Kantorovich distances are running sums over the whole dimension.  np.cumsum
+    accumulates in the dtype of its operand, so applied to the raw input it runs in float32 for the float32 rows the
+    vectorizers emit and the rounding drift reaches 1e-4 at dimension 500 (the property asks for 1e-6 on proportional
+    inputs); the operand must be the normalised (float64) array, or the call must carry dtype=np.float64."""
+    from .common import kw
+
+    rr = RuleResult("R18.6", "running sums of the Kantorovich distances accumulate in float64 (no np.cumsum over the raw input without dtype)", floor=2)
+    for name in ("kantorovich1d", "circular_kantorovich"):
+        f = repo.func(DIST, name)
+        calls = [c for c in repo.calls_in(f) if repo.canonical(f.module, c.func) == "numpy.cumsum" or (isinstance(c.func, ast.Attribute) and c.func.attr == "cumsum")]
+        if not calls:
+            rr.ok(f, "running sum", "accumulated by an explicit loop over the normalised array", f.node.lineno)
+            continue
+        for c in calls:
+            operand = c.args[0] if (c.args and not (isinstance(c.func, ast.Attribute) and c.func.attr == "cumsum" and norm(c.func.value) not in ("np", "numpy"))) else c.func.value
+            d = kw(c, "dtype")
+            raw = isinstance(operand, ast.Name) and operand.id in f.params
+            construct = "cumsum(%s)" % short(operand, 30)
+            if d is not None and norm(d).endswith("float64"):
+                rr.ok(f, construct, "dtype=float64", c.lineno)
+            elif raw:
+                rr.bad(f, construct, "np.cumsum over the raw input `%s` accumulates in its dtype: float32 rows drift by 1e-6..1e-4 with the dimension, so the "
+                       "distance of proportional vectors no longer vanishes to 1e-6 and differs from the float64 value" % operand.id, c.lineno)
+            else:
+                rr.ok(f, construct, "operand is a derived (normalised) array", c.lineno)
+    return rr
+
+
+RULES = [r18_1, r18_2, r18_3, r18_4, r18_5, r18_6]
 CLAIM = (
     "R18.1 every sqrt(1 - q) in distances.py is clamped or dominated (CFG edge dominance) by a comparison excluding q > 1; "
     "R18.2 kind check (position vs element) on every store into the merged index array of sparse_sum / sparse_mul; "
     "R18.3 dense and sparse Hellinger / total-variation handle the same zero-mass cases with the same constants; R18.4 the five dense distances are syntactically invariant under exchanging their arguments (statement multisets modulo commutativity and the sign of differences under abs / squares); "
-    "R18.5 every value buffer of the sparse helpers has a literal floating dtype or the dtype of the only operand stored in it."
+    "R18.5 every value buffer of the sparse helpers has a literal floating dtype or the dtype of the only operand stored in it; R18.6 the running sums of the Kantorovich distances are not an np.cumsum over the raw (possibly float32) input."
 )
 NOT_DECIDED = "symmetry beyond the syntactic invariance of R18.4, the triangle inequality, vanishing on proportional inputs and closeness of sparse and dense values - numerical statements."
